@@ -257,7 +257,7 @@ impl Header {
     pub fn files_excluded(&self) -> Option<Vec<String>> {
         self.0
             .get("Files-Excluded")
-            .map(|x| x.split('\n').map(|x| x.to_string()).collect::<Vec<_>>())
+            .map(|x| x.split_whitespace().map(|x| x.to_string()).collect::<Vec<_>>())
     }
 
     /// Set excluded files
